@@ -16,7 +16,7 @@ def mk_map(w, **kw):
     cbs = w.plist("callbacks")
     f = dict(pdo_node=node, cob_id=cob, data=data, period=None, _task=None, enabled=w.bool("enabled"),
              rtr_allowed=w.bool("rtr_allowed"), trans_type=None, timestamp=None, callbacks=cbs,
-             receive_condition=w.new_condition(), is_received=False, map=w.list([]), length=24)
+             receive_condition=w.new_condition(), is_received=False, map=w.list([]), length=20)
     f.update(kw)
     pm = w.obj(PM, **f)
     w.pre.update(pm=pm, net=net, cob=cob, data0=w.bytes_of(data), data=data, cbs0=w.snap(cbs),
@@ -36,6 +36,10 @@ class PdoOnMessage(Contract):
     def setup(self, w, case):
         transmitting, had_ts = case
         pm = mk_map(w, timestamp=(10.0 if had_ts else None), period=(0.25 if had_ts else None))
+        # a mapping of 20 bits (frame length ceil(20/8) = 3): the last byte is only partly used
+        od = w.obj(OD, data_type=0x06, name="Var", index=0x2000, subindex=0, parent=None)
+        w.setfield(pm, "map", w.list([w.obj("canopen.pdo.base:PdoVariable", od=od, pdo_parent=pm, offset=0, length=20,
+                                            name="Var", index=0x2000, subindex=0)]))
         if transmitting:
             w.setfield(pm, "_task", w.obj("env.stubs:HandlerStub", network=None))
         can_id = w.int("can_id", 1, 0x1FFFFFFF)
@@ -56,7 +60,7 @@ class PdoOnMessage(Contract):
         mine = And(compare("==", p["can_id"], p["cob"]), not p["transmitting"])
         if bool(mine):
             exp_ev = [("notify_all",)] + S.expected_calls(p["cbs0"], (pm,))
-            return And(s.returned, g(pm, "data") is p["frame"], g(pm, "timestamp") == 12.5,
+            return And(s.returned, S.is_bytes(g(pm, "data"), 3), S.eq(g(pm, "data"), p["frame"]), g(pm, "timestamp") == 12.5,
                        (g(pm, "period") == 2.5) if p["had_ts"] else (g(pm, "period") is None),
                        truth_val(g(pm, "is_received")), S.events_are(s, exp_ev),
                        S.same_list(g(pm, "callbacks"), p["cbs0"]))
